@@ -235,16 +235,17 @@ def obs_c09(c: Ctx, *, D):
     for d in range(1, D + 1):
         md = fl.model_default_did(d)
         M = [i for i in ids if st["did"][i - 1] == md]
-        for s in ids:
-            for self_ in (False, True):
+        node_of = lambda s: tree.system_root if s == 0 else c.b.nodes[s]  # noqa: E731  (0: the Node API of the system root)
+        for s in [0] + ids:
+            for self_ in ((False,) if s == 0 else (False, True)):
                 for k in [0] + list(range(1, n + 2)):
                     kw = {} if k == 0 else {"max_results": k}
                     out.append({"q": "find_all", "a": {"start": s, "self": self_, "M": M, "k": k, "via": "node_data"},
-                                "r": call(lambda s=s, d=d, kw=kw, self_=self_: c.b.nodes[s].find_all(fl.data(d), add_self=self_, **kw), c.ids)})
+                                "r": call(lambda s=s, d=d, kw=kw, self_=self_: node_of(s).find_all(fl.data(d), add_self=self_, **kw), c.ids)})
                     out.append({"q": "find_all", "a": {"start": s, "self": self_, "M": M, "k": k, "via": "node_data_id"},
-                                "r": call(lambda s=s, md=md, kw=kw, self_=self_: c.b.nodes[s].find_all(data_id=fl.real_did(md), add_self=self_, **kw), c.ids)})
+                                "r": call(lambda s=s, md=md, kw=kw, self_=self_: node_of(s).find_all(data_id=fl.real_did(md), add_self=self_, **kw), c.ids)})
             out.append({"q": "find_first", "a": {"start": s, "M": M, "via": "node_data"},
-                        "r": call(lambda s=s, d=d: c.b.nodes[s].find_first(fl.data(d)), c.nid)})
+                        "r": call(lambda s=s, d=d: node_of(s).find_first(fl.data(d)), c.nid)})
     # index access
     for d in range(1, D + 2):
         out.append({"q": "getitem", "a": {"key": {"t": "data", "v": d}}, "r": call(lambda d=d: tree[fl.data(d)], c.nid)})
@@ -826,4 +827,60 @@ def obs_c17(c: Ctx):
                 return {"nodes": sorted(nodes), "edges": edges, "edge_kinds": [], "kinds": kinds, "names": names}
 
             out.append({"q": "export", "a": a3, "r": call(run_rdf, norm_rdf)})
+    return out
+
+
+# ------------------------------------------------------------------------------------------------ C07 (new-tree copies)
+def obs_c07(c: Ctx):
+    """Tree.copy(), Node.copy(add_self=), Tree.copy_to / Node.copy_to into a fresh tree (also of a subclass);
+    afterwards the copy is mutated and the source must still project to the same state (independence)."""
+    st, tree, fl = c.st, c.b.tree, c.b.fl
+    n = st["n"]
+    out = []
+
+    class SubTree(type(tree)):
+        pass
+
+    def observe(make, start_ids, via, p, self_):
+        before = core.project(c.b)["st"]
+
+        def norm(t):
+            forest, faithful, kinds, selfdup = _forest_of(c, t, start_ids)
+            same = core.project(c.b)["st"] == before
+            # later changes of the copy are not visible in the source
+            indep = True
+            try:
+                for nd in list(t):
+                    nd.set_meta("verif", 1)
+                tops = list(t.children)
+                if tops:
+                    tops[-1].remove()
+                t.add(fl.data(8))
+                indep = core.project(c.b)["st"] == before and all(nd.meta is None or "verif" not in nd.meta for nd in tree)
+            except Exception:  # noqa: BLE001
+                indep = False
+            return {"forest": forest, "faithful": faithful, "kinds": kinds, "selfdup": selfdup, "src_same": same,
+                    "cls": isinstance(t, type(tree)), "independent": indep}
+        out.append({"q": "copy", "a": {"p": p, "self": self_, "via": via}, "r": call(make, norm)})
+
+    observe(lambda: tree.copy(), st["top"], "tree.copy", 0, False)
+
+    def copy_to_new(cls, deep=True):
+        t2 = cls("target")
+        tree.copy_to(t2, deep=deep)
+        return t2
+    if n > 0:   # (an empty source is refused with ValueError; the documentation is silent)
+        observe(lambda: copy_to_new(type(tree)), st["top"], "tree.copy_to", 0, False)
+        observe(lambda: copy_to_new(SubTree), st["top"], "tree.copy_to(subclass target)", 0, False)
+    for i in range(1, n + 1):
+        nd = c.b.nodes[i]
+        observe(lambda nd=nd: nd.copy(), [i], "node.copy", i, True)
+        if st["kids"][i - 1]:
+            observe(lambda nd=nd: nd.copy(add_self=False), st["kids"][i - 1], "node.copy(add_self=False)", i, False)
+
+        def node_copy_to(nd=nd, cls=type(tree)):
+            t2 = cls("target")
+            nd.copy_to(t2, deep=True)
+            return t2
+        observe(node_copy_to, [i], "node.copy_to(deep)", i, True)
     return out
